@@ -40,6 +40,7 @@ type RunOpts struct {
 	StopOn  string // property whose first violation ends the run ("*": any)
 	RealDir string // pass-through mode: real directory
 	DeepReads bool // run the C03/C11 read oracles after every op (sequential scenarios)
+	DeepRefsFor bool
 	Hook    func(w *World) // called after the world is built
 }
 
@@ -64,6 +65,7 @@ func Execute(spec *RunSpec, opts RunOpts) *RunResult {
 	w.StopOn = opts.StopOn
 	w.Sequential = spec.Scenario == "S-TURN" || spec.Scenario == "S-GROW"
 	w.DeepReads = opts.DeepReads
+	w.DeepRefsFor = opts.DeepRefsFor
 	for _, f := range spec.Faults {
 		if f.Kind == simrt.FaultClockJump || f.Kind == simrt.FaultSlow {
 			w.TimeFaults = true
